@@ -218,5 +218,10 @@ theorem q_run_inv (evs : List Ev) : ∀ e : Ep, QInv e → RxQInv e → QInv (ru
     rw [run_cons_fst]
     exact ih _ (h1.step e ev) (h2.step e ev h1)
 
+theorem QInv.init (cfg : Cfg) : QInv { cfg := cfg } :=
+  ⟨by simp [Ep.inflight, tmpTids], by simp, by simp [Ep.inflight, tmpTids], by simp⟩
+
+theorem RxQInv.init (cfg : Cfg) : RxQInv { cfg := cfg } := ⟨by simp, by simp⟩
+
 end Tcpcl
 end DtnVerif
